@@ -1,6 +1,7 @@
 package main
 
 import (
+	"bytes"
 	"encoding/json"
 	"fmt"
 	"math/rand/v2"
@@ -282,6 +283,7 @@ type judge struct {
 	handlerErr    map[string]int
 	crossChecked  int
 	crossDiff     int
+	crossCompared int
 }
 
 var frameRe = regexp.MustCompile(`(?m)^(github\.com/gotd/td/[^\s(]+(?:\([^)]*\))?[^\s(]*)\(`)
@@ -532,6 +534,27 @@ func (j *judge) check(jb *job, o mon.Outcome, mode string) {
 	}
 	j.crossChecked++
 	for i := range res.Inv {
+		// Comparable: invocations whose outcome the model fixes, and for unmodeled payloads those
+		// whose id occurs at most once in clear (a second delivery races with the return of Invoke:
+		// "handler already called" aborts the enclosing container, "callback not set" does not).
+		comparable := i < len(tc.Must) && tc.Must[i] != ""
+		if !tc.Modeled && len(tc.Must) == 0 {
+			comparable = true
+			for _, st := range tc.Steps {
+				for _, id := range tc.IDs {
+					if bytes.Count(st.P, le64(id)) > 1 {
+						comparable = false
+					}
+				}
+				if contains32(st.P, idGzip) && contains32(st.P, idContainer) {
+					comparable = false
+				}
+			}
+		}
+		if !comparable {
+			continue
+		}
+		j.crossCompared++
 		a, b := jb.fast.Inv[i], res.Inv[i]
 		same := strings.Join(a.Decs, ",") == strings.Join(b.Decs, ",")
 		if a.Out != "canceled" && b.Out != "canceled" && a.Out != b.Out {
@@ -561,6 +584,7 @@ func (j *judge) finish() {
 	c.Set("model_mismatches", j.modelMismatch+j.errMismatch)
 	c.Set("settle_watchdogs", j.timeouts)
 	c.Set("fast_slow_cross_checked", j.crossChecked)
+	c.Set("fast_slow_invocations_compared", j.crossCompared)
 	c.Set("fast_slow_differences", j.crossDiff)
 	if j.delivered["fast"] == 0 || j.delivered["slow"] == 0 {
 		c.Inconclusive("no delivery to a pending invocation was observed")
